@@ -54,6 +54,12 @@ Fixpoint exp_sum (l : list val) (acc : Z) : option val :=
               end
   end.
 
+(* the panicking unit constructors: exact value, or the documented panic exactly out of range *)
+Definition punit_ctor (per : Z) (args : list val) (out : val) : verdict :=
+  match args with
+  | [VInt z] => if in_i64 z then judge_eq (exp_or_panic (z * per)) out else JSkip
+  | _ => JSkip
+  end.
 Definition unit_ctor (per : Z) (args : list val) (out : val) : verdict :=
   match args with
   | [VInt z] => if in_i64 z then judge_eq (exp_opt (z * per)) out else JSkip
@@ -126,6 +132,12 @@ Definition judge (op : bytes) (args : list val) (out : val) : verdict :=
   else if op_is op "td.tostd" then
     un (fun x => if x <? 0 then VNone else VSome (VTup [VInt (x / G); VInt (x mod G)])) args out
   else if op_is op "td.disp" then un (fun x => VStr (exp_display x)) args out
+  else if op_is op "td.pweeks" then punit_ctor (604800 * G) args out
+  else if op_is op "td.pdays" then punit_ctor (86400 * G) args out
+  else if op_is op "td.phours" then punit_ctor (3600 * G) args out
+  else if op_is op "td.pminutes" then punit_ctor (60 * G) args out
+  else if op_is op "td.pseconds" then punit_ctor G args out
+  else if op_is op "td.pmillis" then punit_ctor 1000000 args out
   else if op_is op "td.opadd" then bin (fun x y => exp_or_panic (x + y)) args out
   else if op_is op "td.opsub" then bin (fun x y => exp_or_panic (x - y)) args out
   else if op_is op "td.opmul" then bin_k (fun x k o => judge_eq (exp_or_panic (x * k)) o) args out
